@@ -56,6 +56,10 @@ pub fn gen_transport(rng: &mut Rng, level: Level, model: ModelId) -> Transport {
                     if rng.chance(1, 8) {
                         b = bpp;
                     }
+                    if rng.chance(1, 40) {
+                        // a full-frame staging buffer: more than 65535 pixels fit
+                        b = *rng.pick(&[131_072u32, 131_074, 153_600, 196_608, 196_611, 230_400, 262_144]);
+                    }
                     Transport::Spi { buf: b.max(bpp) }
                 }
                 1 => Transport::Par8,
@@ -148,7 +152,7 @@ pub fn gen_config(rng: &mut Rng, o: &CfgOpts) -> Config {
         loop {
             let (model, w, h, ox, oy) = *rng.pick(&REAL_PANELS);
             let transport = match rng.below(4) {
-                0 => Transport::Spi { buf: *rng.pick(&[64u32, 256, 512, 1024, 4096]) },
+                0 => Transport::Spi { buf: *rng.pick(&[64u32, 256, 512, 1024, 4096, 115_200, 153_600]) },
                 1 => gen_transport(rng, Level::Pin, model),
                 _ => Transport::Trace(*rng.pick(&[Kind::Serial, Kind::P8, Kind::P16])),
             };
@@ -176,6 +180,8 @@ pub fn gen_config(rng: &mut Rng, o: &CfgOpts) -> Config {
                 init_levels: rng.below(8) as u8,
                 clock_all_methods: rng.coin(),
                 latch_partial: rng.coin(),
+                by_ref: !transport.pin_level() && rng.chance(1, 3),
+                builder_order: if rng.chance(1, 3) { rng.below(720) as u16 | ((rng.below(2) as u16) << 15) } else { 0 },
             };
         }
     }
@@ -212,6 +218,8 @@ pub fn gen_config(rng: &mut Rng, o: &CfgOpts) -> Config {
             init_levels: rng.below(8) as u8,
             clock_all_methods: rng.coin(),
             latch_partial: rng.coin(),
+            by_ref: !transport.pin_level() && rng.chance(1, 3),
+                builder_order: if rng.chance(1, 3) { rng.below(720) as u16 | ((rng.below(2) as u16) << 15) } else { 0 },
         };
     }
 }
